@@ -43,6 +43,17 @@ def register(reg, P):
             mk(f"kwarg_static/{u}/o{order}", b_kw, [((3,), F32)])
         mk(f"two_calls_dtype/{u}", (lambda u: (lambda: (lambda x, i: (g[f"f_two_dtype_{u}"](x), g[f"f_two_dtype_{u}"](i)))))(u), [((3,), F32), ((3,), I32)])
         mk(f"kwarg_traced/{u}", (lambda u: (lambda: (lambda x, y: g[f"f_kw_traced_{u}"](x, y=y) - g[f"f_kw_traced_{u}"](y, y=x))))(u), [((3,), F32), ((3,), F32)])
+        C1 = np.array([1.0, 2.0, 3.0], dtype=np.float32)
+        C2 = np.array([10.0, -20.0, 30.0], dtype=np.float32)
+        I1, I2 = np.array([0, 2], dtype=np.int32), np.array([1, 1], dtype=np.int32)
+        mk(f"const_operand_row/{u}", (lambda u: (lambda: (lambda x: g[f"f_add_row_{u}"](x, C1) - g[f"f_add_row_{u}"](x * 2.0, C2))))(u), [((2, 3), F32)])
+        mk(f"const_operand_row_jnp/{u}", (lambda u: (lambda: (lambda x: g[f"f_add_row_{u}"](x, __import__("jax.numpy", fromlist=["x"]).asarray(C1)) * g[f"f_add_row_{u}"](x, __import__("jax.numpy", fromlist=["x"]).asarray(C2)))))(u), [((2, 3), F32)])
+        mk(f"const_operand_scale/{u}", (lambda u: (lambda: (lambda x: g[f"f_scale_by_{u}"](x, C1) + g[f"f_scale_by_{u}"](x, C2))))(u), [((2, 3), F32)])
+        mk(f"const_operand_index/{u}", (lambda u: (lambda: (lambda x: g[f"f_take_const_{u}"](x, I1) + g[f"f_take_const_{u}"](x, I2))))(u), [((2, 3), F32)])
+        mk(f"const_then_runtime/{u}", (lambda u: (lambda: (lambda x, r: g[f"f_add_row_{u}"](x, C1) + g[f"f_add_row_{u}"](x, r))))(u), [((2, 3), F32), ((3,), F32)])
+        mk(f"identity_body/{u}", (lambda u: (lambda: (lambda x: g[f"f_identity_{u}"](x) + 1.0)))(u), [((3,), F32)])
+        mk(f"identity_body_is_output/{u}", (lambda u: (lambda: (lambda x: g[f"f_identity_{u}"](x))))(u), [((3,), F32)])
+        mk(f"passthrough_output/{u}", (lambda u: (lambda: (lambda x, y: g[f"f_passthrough_pair_{u}"](x, y))))(u), [((3,), F32), ((3,), F32)])
         mk(f"nested/{u}", (lambda u: (lambda: (lambda x: g[f"f_outer_{u}"](x) * g[f"f_inner_{u}"](x + 1.0))))(u), [((3,), F32)])
         # same function instantiated inside another function AND at top level / in a sibling, with
         # different signatures (name/identifier allocation across scopes), in both orders
@@ -264,6 +275,28 @@ def _define_plain_functions():
         def encoder2(x, _u=u):
             return globals()[f"f_scale_feat_{_u}"](x * 2.0) - globals()[f"f_scale_feat_{_u}"](x)
 
+        # operands that are compile-time constants in the CALLER and differ per call site: a body that
+        # folds them (broadcast / reshape / pad lowerings peek at constants) must not be shared
+        def add_row(x, row):
+            return x + jnp.broadcast_to(row, x.shape)
+
+        def scale_by(x, s):
+            return x * jnp.reshape(s, (1, -1)) + jnp.sum(s)
+
+        def take_const(x, idx):
+            return jnp.take(x, idx, axis=1)
+
+        def identity_fn(x):
+            return x
+
+        def passthrough_pair(x, y):
+            return y, x + 1.0
+
+        install(f"f_identity_{u}", identity_fn, unique)
+        install(f"f_passthrough_pair_{u}", passthrough_pair, unique)
+        install(f"f_add_row_{u}", add_row, unique)
+        install(f"f_scale_by_{u}", scale_by, unique)
+        install(f"f_take_const_{u}", take_const, unique)
         install(f"f_scale_feat_{u}", scale_feat, unique)
         install(f"f_encoder_{u}", encoder, unique)
         install(f"f_encoder2_{u}", encoder2, unique)
